@@ -14,9 +14,10 @@ def generate(rng, tier):
     n = 120 if tier == "quick" else 3000
     allk = stream_cfgs_for(lambda k: True)
     for i in range(n):
-        bs, w, dm, kind = allk[i % len(allk)] if i < len(allk) else rng.choice(allk)
-        key, iv = rbytes_n(rng, 8), boundary_iv(rng, bs, kind)
-        L = rng.choice([1, bs, bs + 1, 2 * bs - 1, 3 * bs + 2, w * bs + 1, rng.randint(0, 7 * bs)])
+        bs, w, dm, kind = pick_stream(rng, i)
+        key = rbytes_n(rng, 8)
+        iv = stream_iv(rng, bs, kind, key, dm)
+        L = rng.choice([1, bs, bs + 1, 2 * bs - 1, 3 * bs + 2, w * bs + 1, (w + 1) * bs + 3, (2 * w + 1) * bs, rng.randint(0, 7 * bs)])
         msg = rbytes_n(rng, L)
         c = Case("c08_s%d" % i, "stream", bs, w, dm, tags=dict(kind=kind))
         c.op("new a %s new %s %s" % (kind, hx(key), hx(iv)))
